@@ -4,10 +4,12 @@ namespace Drv
 def hexVal (c : Char) : Nat :=
   if c.isDigit then c.toNat - 48 else if 'a' ≤ c ∧ c ≤ 'f' then c.toNat - 87 else if 'A' ≤ c ∧ c ≤ 'F' then c.toNat - 55 else 0
 
-/-- hex string (two digits per byte, bytes < 128 only are used) to characters -/
-def unhex : List Char → List Char
-  | a :: b :: r => Char.ofNat (hexVal a * 16 + hexVal b) :: unhex r
-  | _ => []
+/-- hex string (two digits per byte, bytes < 128 only are used) to characters; tail recursive (files of megabytes are sent) -/
+def unhexAux : List Char → List Char → List Char
+  | a :: b :: r, acc => unhexAux r (Char.ofNat (hexVal a * 16 + hexVal b) :: acc)
+  | _, acc => acc.reverse
+
+def unhex (l : List Char) : List Char := unhexAux l []
 
 def hexDigit (n : Nat) : Char := if n < 10 then Char.ofNat (48 + n) else Char.ofNat (87 + n)
 
